@@ -122,10 +122,23 @@ func c09Monitor(m *vk.Meta, in mgrIn, out mgrOut) {
 					masters = append(masters, h)
 				}
 			}
-			if len(masters) != 1 {
+			// the host hit by the single injected fault in this very iteration may or may not have been readable to the
+			// manager (a failed query hides a server only when it is one the health probe depends on): the clause is judged
+			// on what could be observed, so both readings are admitted for that one host
+			alt := masters
+			if k == in.FaultAt && in.Fault != nil {
+				alt = nil
+				for _, h := range masters {
+					if h != in.Fault.Host {
+						alt = append(alt, h)
+					}
+				}
+			}
+			got := mgrMasterIn(st.TreeAfter)
+			if len(masters) != 1 && len(alt) != 1 {
 				viol("leaving maintenance succeeds only when exactly one alive master exists", fmt.Sprintf("alive masters: %v", masters), nil)
-			} else if got := mgrMasterIn(st.TreeAfter); got != masters[0] {
-				viol("on leaving maintenance the one alive master becomes the recorded master", fmt.Sprintf("recorded %q, alive master %s", got, masters[0]), nil)
+			} else if !(len(masters) == 1 && got == masters[0]) && !(len(alt) == 1 && got == alt[0]) {
+				viol("on leaving maintenance the one alive master becomes the recorded master", fmt.Sprintf("recorded %q, alive masters %v", got, masters), nil)
 			}
 			if a := mgrActiveIn(st.TreeAfter); len(a) == 0 {
 				viol("on leaving maintenance the active list is rebuilt non-empty", "active_nodes is empty", nil)
